@@ -48,6 +48,20 @@ class SimLink(object):
         self.reads = 0
         self.writes = 0
         self.short_writes = rng.random() < 0.3
+        self.opened = 0
+        self.zero_writes = 0
+
+    def on_open(self):
+        # a new handle on the device = a new connection for adbd
+        self.opened += 1
+        if self.opened > 1:
+            self.sim.new_connection()
+
+    def read_partial(self, length):
+        """bytes that had arrived when a bulk read timed out (fewer than asked for)"""
+        avail = self.sim.wire_available(length)
+        k = min(avail, max(0, length - 1), 7)
+        return self.sim.wire_take(k) if k > 0 else b""
 
     def write(self, endpoint, data, timeout_ms):
         self.writes += 1
@@ -58,6 +72,10 @@ class SimLink(object):
         n = len(data)
         if self.short_writes and n > 1 and self.rng.random() < 0.2:
             n = self.rng.randint(1, n)
+            if self.rng.random() < 0.15:
+                n = 0                     # a transfer that moved nothing and reported no error (the caller has to try again)
+                self.zero_writes += 1
+                self.clock.advance(0.01)
         self.sim.host_bytes(data[:n], "usb")
         return n
 
@@ -193,7 +211,7 @@ def run_direct(case, stats):
         while n < len(m):
             k = t.bulk_write(m[n:], tm)
             expected_ms.append(("bulkWrite", tm))
-            if not isinstance(k, int) or k <= 0:
+            if not isinstance(k, int) or k < 0 or k > len(m) - n or (k == 0 and link.zero_writes == 0):
                 viol.append({"mechanism": "write-count", "detail": "%s: bulk_write returned %r" % (where, k)})
                 break
             n += k
@@ -402,7 +420,7 @@ def run_fault(case, stats):
     dev.close()
     n = be.ntransfers
     kinds = [c[1] for c in be.calls if c[1] in ("bulkRead", "bulkWrite")]
-    errs = ["io", "nodevice", "timeout", "pipe", "overflow", "other"]
+    errs = ["io", "nodevice", "timeout", "pipe", "overflow", "other", "timeout-partial"]
     ks = list(range(n)) if n <= 250 else sorted(set(range(0, n, n // 250 + 1)) | set(range(60)))
     for k in ks:
         err = errs[(k + int(case["seed"].split("f")[-1])) % len(errs)]
@@ -426,6 +444,15 @@ def run_fault(case, stats):
             dev.close()
         except Exception as e:  # noqa
             viol.append({"mechanism": "close-after-fault", "detail": "%s: close() raised %s" % (where, type(e).__name__)})
+        # the same object connects again (a new handle, a new adbd connection): the session must be exactly the fault-free one
+        try:
+            again = scenario(dev, sim)
+            stats["reconnects_after_fault"] = stats.get("reconnects_after_fault", 0) + 1
+            if again != ref:
+                viol.append({"mechanism": "reconnect-differs", "detail": "%s: after close() + connect() the session gave %.100r, fault-free %.100r" % (where, again, ref)})
+            dev.close()
+        except Exception as e:  # noqa
+            viol.append({"mechanism": "reconnect-failed", "detail": "%s: after close() + connect() on the same object, during %s: %s: %s" % (where, cur[0], type(e).__name__, str(e)[:100])})
         if len(viol) > 3:
             break
     return viol, "fault sweep over %d of %d transfers" % (len(ks), n), len(ks)
